@@ -377,6 +377,101 @@ class SelfStopping(Core.Model):
         self.systems.add_system(Probe('probe', self, frequency=freq))
 
 
+def after_completion_case(case):
+    """What a completed model does with MANY and with LARGE advance requests, for sparse schedules (nothing due for a
+    long while): nothing runs, the clock stands still, and the strict request raises - the 2000th time like the first."""
+    from mc.engine.seams import reset_library
+    reset_library()
+    m = new_model(seed=1)
+    log = []
+
+    class Rec(Core.System):
+        def execute(self):
+            log.append((self.id, self.model.systems.timestep))
+    for sid, kw in (('every9', {'frequency': 9}), ('late', {'start': 40}), ('over', {'end': 1}), ('each', {})):
+        if sid in case['systems']:
+            m.systems.add_system(Rec(sid, m, **kw))
+    m.execute(case['warm'])
+    n0, t0 = len(log), m.timestep
+    m.complete()
+    for i in range(case['requests']):
+        k = i % 4
+        if k == 0:
+            m.execute()
+        elif k == 1:
+            m.execute(case['big'])
+        elif k == 2:
+            m.systems.execute_systems()
+        else:
+            try:
+                m.systems.execute_systems(throw_error=True)
+            except Core.ModelCompleteError:
+                pass
+            else:
+                raise Violation(f'advance request {i} on the completed model: execute_systems(throw_error=True) did not '
+                                f'raise', expected='ModelCompleteError', observed='no exception')
+        if len(log) != n0 or m.timestep != t0 or m.systems.timestep != t0 or m.is_running():
+            raise Violation(f'advance request {i} ({["execute()", "execute(%d)" % case["big"], "execute_systems()", "strict"][k]}) '
+                            f'on a completed model with systems {case["systems"]}: something ran, the clock moved or the '
+                            f'model runs again', expected=[n0, t0, False],
+                            observed=[len(log), m.timestep, m.is_running()])
+    return case['requests']
+
+
+def reentrant_case(case):
+    """A system advances its OWN model from inside its turn (guarded against recursion) and the model is completed -
+    after the nested step has returned, or by a system inside the nested step.  Whatever the nesting does to the order
+    of things, nothing runs once complete() has been called."""
+    from mc.engine.seams import reset_library
+    reset_library()
+    m = new_model(seed=1)
+    log = []
+
+    class Rec(Core.System):
+        def execute(self):
+            log.append(self.id)
+
+    class Nester(Core.System):
+        busy = False
+
+        def execute(self):
+            log.append(self.id)
+            if self.model.systems.timestep == 1 and not Nester.busy:
+                Nester.busy = True
+                try:
+                    self.model.execute()
+                finally:
+                    Nester.busy = False
+                if case['where'] == 'after':
+                    log.append('COMPLETE')
+                    self.model.complete()
+
+    class InnerStop(Core.System):
+        def execute(self):
+            log.append(self.id)
+            if case['where'] == 'inside' and Nester.busy:
+                log.append('COMPLETE')
+                self.model.complete()
+    prio = {'first': 3, 'mid': 1, 'last': -3}[case['pos']]
+    for s in (Rec('a', m, priority=2), Nester('nest', m, priority=prio), InnerStop('stop', m, priority=0),
+              Rec('b', m, priority=-1), Rec('c', m, priority=-2)):
+        m.systems.add_system(s)
+    m.execute(3)
+    if 'COMPLETE' not in log or m.is_running():
+        raise Violation('the model was not completed by the nested scenario', observed=log)
+    tail = log[log.index('COMPLETE') + 1:]
+    if tail:
+        raise Violation(f'systems ran after complete() was called (completion {case["where"]} a nested step started by the '
+                        f'{case["pos"]} system)', expected=[], observed=tail)
+    t = m.timestep
+    n = len(log)
+    m.execute(2)
+    m.systems.execute_systems()
+    if len(log) != n or m.timestep != t:
+        raise Violation('a completed model was advanced after a nested completion')
+    return len(log)
+
+
 def batch_case(case):
     """A batch over models that complete themselves: no collector takes a record once its model is complete (whatever
     its frequency), with one and with two processes."""
@@ -411,6 +506,20 @@ def run(ctx):
                 ctx.report(case, v)
                 return
     ctx.leg('batch', cases=4, note='batch_run over self-completing models with collectors of frequency 1, 2, 3')
+    extra = [{'leg': 'after_completion', 'systems': sy, 'warm': w_, 'requests': 2400 if not ctx.small else 40, 'big': big}
+             for sy in (['every9'], ['late'], ['over', 'each'], ['every9', 'late', 'over']) for w_ in (2, 5)
+             for big in (8, 20)]
+    extra += [{'leg': 'reentrant', 'where': wh, 'pos': pos} for wh in ('after', 'inside') for pos in ('first', 'mid', 'last')]
+    for case in extra:
+        ctx.traces += 1
+        try:
+            fn = after_completion_case if case['leg'] == 'after_completion' else reentrant_case
+            ctx.transitions += hbfs._guard(fn, case)
+            ctx.outcome((case['leg'], repr(sorted(case.items()))))
+        except Violation as v:
+            ctx.report(case, v)
+            return
+    ctx.leg('after_completion_and_reentrant', cases=len(extra))
     from mc.engine import par
     cfgs = list(configs(ctx.tier))
     if ctx.small:
@@ -421,6 +530,9 @@ def run(ctx):
 def replay(case):
     if case['leg'] == 'batch':
         hbfs._guard(batch_case, case)
+        return
+    if case['leg'] in ('after_completion', 'reentrant'):
+        hbfs._guard(after_completion_case if case['leg'] == 'after_completion' else reentrant_case, case)
         return
     c = case['config']
     hbfs.replay_case(Harness(c['pos'], c['tc'], c['horizon'], c['second'], c.get('quiet', False),
